@@ -172,6 +172,14 @@ class Report:
         self.known = []
 
     def add(self, ob):
+        from . import engine as _e
+        if _e.TRUNCATED[0]:
+            # the scenario's exploration was cut by its wall-clock budget: violations found on completed paths stand,
+            # but nothing may be called discharged
+            if ob.status == 'discharged':
+                ob.status = 'inconclusive'
+            ob.detail = ((ob.detail or '') + ' [exploration budget exhausted: only the paths completed in time were examined]').strip()
+            _e.TRUNCATED[0] = False
         self.obligations.append(ob)
         return ob
 
